@@ -9,10 +9,22 @@ EXTENDS JsonValue
 (* F-C06-4: when validation installs a default into a urlencoded (or multipart) body the    *)
 (* body has to be written back, there is no encoder for that media type, and the conforming *)
 (* request is rejected ("rewriting failed").                                                *)
+(* F-C06-5: a urlencoded body under an object-level oneOf/anyOf whose alternatives type the same   *)
+(* property differently: a field text that parses under BOTH types ("7": integer and string) is     *)
+(* decoded once per alternative and the two results are reported as "conflicting values".           *)
+(* F-C06-6: the multipart decoder finds a part's schema only among the schema's own properties and  *)
+(* those of allOf members: a part declared inside oneOf/anyOf alternatives is "undefined".          *)
 HasKeyK(v, k) == \E i \in DOMAIN v.k : v.k[i] = k
 Class(line, bad) ==
    LET c == line.c IN
    IF c.part # "decode" THEN "none"
+   ELSE IF c.family = "form" /\ c.schema \in {"S4", "S4a"} /\ HasKeyK(c.v, "ref") /\ Get(c.v, "ref").t = "num"
+           /\ bad \subseteq {"conforming_body_accepted", "decoded_value"} /\ line.verdict = "other"
+           /\ "dec" \in DOMAIN line /\ line.dec.err = "other"
+   THEN "form_composition_conflicting_values"
+   ELSE IF c.family = "multipart" /\ c.schema \in {"S4", "S4a"} /\ bad \subseteq {"conforming_body_accepted", "decoded_value"}
+           /\ line.verdict = "parse" /\ "dec" \in DOMAIN line /\ line.dec.err = "parse"
+   THEN "multipart_composition_part_undefined"
    ELSE IF c.family = "form" /\ HasKeyK(c.v, "u3") /\ bad \subseteq {"violating_body_rejected", "decoded_value"} /\ line.verdict = "ok"
            /\ "val" \in DOMAIN line.dec /\ ~HasKeyK(line.dec.val, "u3")
    THEN "form_untyped_property_dropped"
